@@ -6,6 +6,7 @@ import (
 	"fmt"
 	"sort"
 	"strings"
+	"sync"
 	"testing"
 	"time"
 
@@ -34,6 +35,19 @@ func checkSend(x *model.Exec, s *bgen.SendStep) (string, bool, []string) {
 	lin := x.NewSend(script)
 	lin.ErrKind = bgen.ErrKindsFor(x, s.ErrKinds)
 	exp := x.Expect(s.ET, lin)
+	// a registry call made re-entrantly by the first node that runs: this Send may legitimately see the
+	// pipeline set before or after it (sub-multiset of the union), every LATER Send must see the new set
+	var reOnce sync.Once
+	reDone := false
+	if s.Reentrant != nil {
+		op := *s.Reentrant
+		lin.Enter = func(*nodes.N) {
+			reOnce.Do(func() {
+				x.Apply(op)
+				reDone = true
+			})
+		}
+	}
 	x.W.Reset()
 	var ctx context.Context
 	var cancel context.CancelFunc
@@ -56,6 +70,20 @@ func checkSend(x *model.Exec, s *bgen.SendStep) (string, bool, []string) {
 	_, cancelledAt := ctl.Snapshot()
 	live := s.Ctx == 0 || (s.Ctx == 2 && cancelledAt == "")
 	calls := x.W.Calls()
+	if reDone {
+		// merge the expectations of the pipeline set after the re-entrant call; only the sub-multiset rule applies
+		after := x.Expect(s.ET, lin)
+		seen := map[*model.Pipe]bool{}
+		for _, tr := range exp {
+			seen[tr.Pipe] = true
+		}
+		for _, tr := range after {
+			if !seen[tr.Pipe] {
+				exp = append(exp, tr)
+			}
+		}
+		live = false
+	}
 
 	var classes []string
 	expCount := map[string]int{}
@@ -97,7 +125,11 @@ func checkSend(x *model.Exec, s *bgen.SendStep) (string, bool, []string) {
 		if msg := diffCounts(expCount, obsCount, false); msg != "" {
 			return "cancelled context: " + msg, false, nil
 		}
-		classes = append(classes, "cancelled")
+		if reDone {
+			classes = append(classes, "reentrant_registry_call_during_send")
+		} else {
+			classes = append(classes, "cancelled")
+		}
 		if cancelledAt != "" {
 			classes = append(classes, "cancel_landed@"+cancelledAt)
 		}
